@@ -469,7 +469,16 @@ func checkGatherCycleControl(p *Prog, r *Report) {
 		if as, ok := n.(*ast.AssignStmt); ok && len(as.Lhs) == 1 {
 			switch {
 			case p.IsField(as.Lhs[0], "Agent.gatherCandidateCancel"):
-				rec["cancel"] = identName(as.Rhs[0]) == "cancel"
+				// the cancel function returned by the context.WithCancel whose context the goroutine runs under
+				if id, ok := unparen(as.Rhs[0]).(*ast.Ident); ok {
+					if o := p.ObjOf(id); o != nil {
+						if d, okD := p.SingleDef(f, o); okD && d.Rhs != nil && d.Index == 1 {
+							if c, okC := unparen(d.Rhs).(*ast.CallExpr); okC && p.CalleeName(c) == "context.WithCancel" {
+								rec["cancel"] = true
+							}
+						}
+					}
+				}
 			case p.IsField(as.Lhs[0], "Agent.gatherCandidateDone"):
 				rec["done"] = true
 			}
